@@ -17,16 +17,17 @@ def expectedSets (b : List LineDesc) : List DataSet :=
     per transmitted address with all its values and units in order. -/
 theorem parse_block (b : List LineDesc) (h : ∀ l ∈ b, l.WF) :
     ∃ iters, parseContent (render b) = .ok (expectedSets b, iters) := by
-  sorry
+  exact P1ParseRT.parseContent_render b h
 
 /-- parsing never runs out of the model's fuel (the loops of the repaired source terminate), and the
     number of loop iterations is linear in the input -/
 theorem parse_terminates (data : List Nat) : parseContent data ≠ .error .overflowError := by
-  sorry
+  exact P1ParseRT.parseContent_ne_overflow data
 
 theorem parse_cost (data : List Nat) (items : List DataSet) (iters : Nat)
     (h : parseContent data = .ok (items, iters)) : iters ≤ 2 * data.length + 2 := by
-  sorry
+  have := P1ParseRT.parseContent_cost data items iters h
+  omega
 
 /-- **C11 (decoding names).** A single-valued data set is stored under the common field name of its
     OBIS address's C.D.E groups (or the C.D.E text when unknown). -/
@@ -34,13 +35,13 @@ theorem decode_name (item : DataSet) (k : String) (v : Val) (g : Obis.Groups)
     (hg : Obis.parse item.address = .ok g) (h : decodeItem item = .ok (k, v)) :
     k = (match obisNameMap.lookup (Py.toString (Obis.cdeStr g)) with
          | some n => n | none => Py.toString (Obis.cdeStr g)) := by
-  sorry
+  exact P1ParseRT.decodeItem_name item k v g hg h
 
 /-- **C11 (verbatim values).** Without a recognised unit and not the clock, the value text is kept. -/
 theorem decode_verbatim (addr value : List Nat) (g : Obis.Groups) (hg : Obis.parse addr = .ok g)
     (hc : Obis.cdeStr g ≠ clockCde) :
     ∃ k, decodeItem ⟨addr, [⟨value, none⟩]⟩ = .ok (k, .str value) := by
-  sorry
+  exact ⟨_, P1ParseRT.decodeItem_verbatim addr value g hg hc⟩
 
 /-- **C11 (V, A, var, varh).** The transmitted number (as the nearest double), in any letter case of
     the unit. -/
@@ -48,14 +49,14 @@ theorem decode_plain_unit (addr value unit : List Nat) (g : Obis.Groups) (f : Fl
     (hg : Obis.parse addr = .ok g) (hu : unitsPlain.contains (Py.lower unit) = true) (hne : unit ≠ [])
     (hf : Flt.ofStr value = .ok f) :
     ∃ k, decodeItem ⟨addr, [⟨value, some unit⟩]⟩ = .ok (k, .flt f) := by
-  sorry
+  exact ⟨_, P1ParseRT.decodeItem_plain addr value unit g f hg hu hne hf⟩
 
 /-- **C11 (kW, kWh, kvar, kvarh).** `int(float(value) * 1000)`. -/
 theorem decode_kilo_unit (addr value unit : List Nat) (g : Obis.Groups) (f : Flt.F) (z : Int)
     (hg : Obis.parse addr = .ok g) (hu : unitsKilo.contains (Py.lower unit) = true) (hne : unit ≠ [])
     (hf : Flt.ofStr value = .ok f) (hz : Flt.toInt (Flt.mul f (Flt.ofNat 1000)) = .ok z) :
     ∃ k, decodeItem ⟨addr, [⟨value, some unit⟩]⟩ = .ok (k, .int z) := by
-  sorry
+  exact ⟨_, P1ParseRT.decodeItem_kilo addr value unit g f z hg hu hne hf hz⟩
 
 /-- **C11 (clock).** `YYMMDDhhmmss…` under 1.0.0 is the transmitted local date-time. -/
 theorem decode_clock (addr : List Nat) (g : Obis.Groups) (hg : Obis.parse addr = .ok g)
@@ -64,7 +65,7 @@ theorem decode_clock (addr : List Nat) (g : Obis.Groups) (hg : Obis.parse addr =
     let two (n : Nat) : List Nat := [48 + n / 10, 48 + n % 10]
     ∃ k, decodeItem ⟨addr, [⟨two yy ++ two mo ++ two d ++ two h ++ two mi ++ two s ++ suffix, none⟩]⟩ =
       .ok (k, .dt { year := 2000 + yy, month := mo, day := d, hour := h, minute := mi, second := s, micro := 0, tz := none }) := by
-  sorry
+  exact ⟨_, P1ParseRT.decodeItem_clock addr g hg hc yy mo d h mi s suffix hv⟩
 
 /-- **C11 (same through all paths).** `decode_p1_readout` = `decode_p1_readout_content` of the payload
     plus the two identification fields. -/
@@ -73,6 +74,11 @@ theorem readout_eq_content_plus_ident (r : P1.Readout) (d : Dict) (m : P1.IdentM
     decodeReadout r = .ok (match m.ident with
       | some i => (d.set field_METER_MANUFACTURER_ID (.str m.manid)).set field_METER_TYPE_ID (.str i)
       | none => d.set field_METER_MANUFACTURER_ID (.str m.manid)) := by
-  sorry
+  exact P1ParseRT.decodeReadout_eq r d m hd hm
+
+/-- the iteration count is in fact at most the input length -/
+theorem parse_cost_tight (data : List Nat) (items : List DataSet) (iters : Nat)
+    (h : parseContent data = .ok (items, iters)) : iters ≤ data.length :=
+  P1ParseRT.parseContent_cost data items iters h
 
 end Amshan.C11
